@@ -1000,8 +1000,10 @@ class SupportGenerator(CodeGenerator):
                 for resource_line in resource_file:
                     if len(resource_line) > 1 and resource_line[-2] == "\r":
                         resource_line_tuple = (resource_line[0:-2], "\r\n")
-                    else:
+                    elif resource_line.endswith("\n"):
                         resource_line_tuple = (resource_line[0:-1], "\n")
+                    else:
+                        resource_line_tuple = (resource_line, "")
                     for line_pp in line_pps:
                         resource_line_tuple = line_pp(resource_line_tuple)
                     target_file.write(resource_line_tuple[0])
